@@ -47,11 +47,6 @@ func serfLeave(c *snapCase, x *vkit.Ctx) {
 	serf.VerifSetClock(clk)
 	defer serf.VerifSetFS(nil)
 	defer serf.VerifSetClock(nil)
-	stopTicks := make(chan struct{})
-	go func() { // nobody sends ticks in this layer; keep the channel drained
-		<-stopTicks
-	}()
-	defer close(stopTicks)
 	nw := simnet.New(1)
 	const path = "/snap/serf-snapshot"
 	n, err := node.New(nw, node.Opts{Name: "leaver", Quiet: true, Mutate: func(sc *serf.Config) {
@@ -91,7 +86,17 @@ func serfLeave(c *snapCase, x *vkit.Ctx) {
 	for n.Serf.VerifSnapshotter().VerifBacklog() != 0 && time.Now().Before(dl) {
 		runtime.Gosched()
 	}
-	time.Sleep(time.Millisecond)
+	// ... and finish processing it: two sends on the owned (unbuffered) tick
+	// channel prove the stream goroutine is back in its select
+	for i := 0; i < 2; i++ {
+		select {
+		case clk.tick <- clk.Now():
+		case <-time.After(20 * time.Second):
+			x.Inconclusive("serf-layer-barrier-timeout")
+			n.Stop()
+			return
+		}
+	}
 	if err := n.Serf.Leave(); err != nil {
 		x.Inconclusive("leave: " + err.Error())
 		n.Stop()
